@@ -92,6 +92,9 @@ def _worker(args):
                "steps": 0, "peer_calls": 0, "sim_time": 0.0, "worlds": 0, "digests": [], "nontrivial": 0, "state_keys": [],
                "errors": [], "sample": None}
         for scn in scns:
+            # watchdog per case (every case also has its own SIGALRM wall): a chunk of many derived cases may legitimately take long
+            faulthandler.cancel_dump_traceback_later()
+            faulthandler.dump_traceback_later(600, exit=True)
             r = run_scenario_safe(prop, scn)
             agg["cases"] += 1
             agg["outcomes"][r["outcome"]] = agg["outcomes"].get(r["outcome"], 0) + 1
@@ -228,7 +231,11 @@ def main_check(pid, tier, seed, jobs=16, repo="/repo", nseeds=None, wall_cap=Non
                     c = next(it)
                 except StopIteration:
                     return
-                f = ex.submit(_worker, (pid, c, tier, repo))
+                try:
+                    f = ex.submit(_worker, (pid, c, tier, repo))
+                except cf.process.BrokenProcessPool as e:
+                    harness_problems.append("worker pool broke (%r); %d seeds were not run" % (e, n - submitted))
+                    return
                 futs[f] = c
                 pending.add(f)
                 submitted += len(c)
